@@ -84,7 +84,7 @@ func verifC06Hit(requestSide bool) {
 		return fixed
 	}
 	a := &Attacker{stopch: make(chan struct{})}
-	a.client.Timeout = DefaultTimeout // as NewAttacker configures it
+	a.client.Timeout = DefaultTimeout                           // as NewAttacker configures it
 	a.maxBody = int64(pick("max_body", 5, 2, !requestSide)) - 1 // -1, 0, 1, 2, 3
 	a.chunked = verif_nondet_bool("chunked")
 	atk := &attack{name: []string{"", "load-test"}[pick("attack_name", 2, 1, requestSide)], began: time.Unix(0, 1000)}
